@@ -286,7 +286,7 @@ private theorem toyOK : PrimsOK toy where
   ripemd160_len := fun _ => rfl
   hmac256_len := fun _ _ => rfl
   hmac512_len := fun _ _ => rfl
-  cbc_len := fun _ _ _ => rfl
+  cbc_len := fun _ _ _ _ => rfl
   cbc_inv := fun _ _ _ _ _ _ => rfl
   cfb_inv := fun _ _ _ => rfl
   cfb_len := fun _ _ _ => rfl
